@@ -188,6 +188,9 @@ pub fn run_case(seed: u64, idx: u64, out: &mut String) {
             ex.log(format!("c {}", (ex.wake_count() > before) as u8));
         }
     }
+    if idx % 3 == 2 {
+        w.lock().unwrap_or_else(|p| p.into_inner()).drain_fail = true;
+    }
     final_phase(fin, &mut r, &mut ex, &mut fut, &mut closed, &mut || tx.close_channel());
     drop(fut);
     let mut wl = w.lock().unwrap_or_else(|p| p.into_inner());
